@@ -21,10 +21,10 @@ var SrvFields = []Field{
 	{"proto", []string{"nil", "all", "b", "none", "custom-all", "custom-b", "sel-equal-b", "sel-slice-b", "sel-bigslice-b"}},
 	{"ext", []string{"nil", "all", "none", "custom-all", "negotiate-echo", "negotiate-decline", "negotiate-error", "negotiate-pmd", "negotiate-error-x", "negotiate-error-y", "custom-alias", "negotiate-redirect"}},
 	{"header", []string{"nil", "one", "bytes", "http", "func-long", "func-long-fails"}},
-	{"onrequest", []string{"nil", "ok", "err", "reject403", "err-list", "err-bytes", "reject403-live", "redirect307"}},
+	{"onrequest", []string{"nil", "ok", "err", "reject403", "err-list", "err-bytes", "reject403-live", "redirect307", "reject451-status-only", "reject-no-options"}},
 	{"onhost", []string{"nil", "ok", "err", "reject403", "err-list", "err-bytes"}},
 	{"onheader", []string{"nil", "ok", "err", "reject403", "err-list", "err-bytes"}},
-	{"onbefore", []string{"nil", "ok", "err", "reject403", "ok-header", "err-list", "err-bytes", "reject403-live"}},
+	{"onbefore", []string{"nil", "ok", "err", "reject403", "ok-header", "err-list", "err-bytes", "reject403-live", "reject451-status-only"}},
 }
 
 type SrvCfg []int
@@ -70,6 +70,11 @@ func cbErr(kind string) error {
 		return ErrBytes
 	case "redirect307":
 		return RedirectErr()
+	case "reject451-status-only":
+		// a rejection that names a status and nothing else: no reason, no headers
+		return ws.RejectConnectionError(ws.RejectionStatus(451))
+	case "reject-no-options":
+		return ws.RejectConnectionError()
 	}
 	return nil
 }
@@ -303,6 +308,10 @@ func (c SrvCfg) Expect(r Req) SrvExpect {
 			e.CallbackStatuses[403] = true
 		case "redirect307":
 			e.CallbackStatuses[307] = true
+		case "reject451-status-only":
+			e.CallbackStatuses[451] = true
+		case "reject-no-options":
+			e.CallbackStatuses[500] = true
 		}
 	}
 	status(c.V("onrequest"))
